@@ -24,7 +24,7 @@ type recKind struct {
 	Type uint16
 	Raw  bool // enter through Push(typ, raw) instead of PushMessage
 	Nil  bool
-	TS   int // timestamp variant: records of one event normally share a timestamp, these do not
+	TS   int // timestamp variant: records of one event normally share a timestamp, these do not; -1 = one tick before the virtual present
 }
 
 var recKinds = map[string]recKind{
@@ -39,7 +39,10 @@ var recKinds = map[string]recKind{
 	"midTs":    {Name: "midTs", Type: 1300, TS: 1},
 	"midRawTs": {Name: "midRawTs", Type: 1300, Raw: true, TS: 1},
 	"finTs":    {Name: "finTs", Type: 1327, TS: 2},
-	"nil":      {Name: "nil", Nil: true},
+	// records stamped by the "kernel" just before the (virtual) present: one tick ago
+	"midNow":    {Name: "midNow", Type: 1300, TS: -1},
+	"midRawNow": {Name: "midRawNow", Type: 1300, Raw: true, TS: -1},
+	"nil":       {Name: "nil", Nil: true},
 }
 
 // terminating is the completion rule named by the property's anchors
@@ -158,6 +161,7 @@ type Instance struct {
 	closedAt  int // ops executed since first successful close
 	step      int
 	nextTag   int
+	rawBuf    []byte
 	reentered bool
 	nesting   int
 
@@ -176,6 +180,36 @@ type Instance struct {
 }
 
 func (in *Instance) ord(s uint32) uint32 { return s - in.cfg.Base }
+
+// before is the order the property states: numbers that differ by more than 2^24-1 are
+// ordered as a uint32 roll-over (the larger one is the older one), otherwise numerically.
+// Inside one 2^24 window starting at cfg.Base it coincides with comparing ord().
+func before(a, b uint32) bool {
+	d := int64(a) - int64(b)
+	if d < 0 {
+		d = -d
+	}
+	if d > 1<<24-1 {
+		return a > b
+	}
+	return a < b
+}
+
+// stamp returns the record timestamp for a kind.
+func (in *Instance) stamp(k recKind) time.Time {
+	switch {
+	case k.TS < 0:
+		if k.Raw {
+			return in.clock.T.Add(-tick).UTC() // text form has millisecond resolution
+		}
+		// strictly between two instants the virtual clock can show, so a deadline derived
+		// from it differs from the stated one at an observable instant (not only at the boundary)
+		return in.clock.T.Add(-tick - tick/2).UTC()
+	case k.TS > 0:
+		return time.Unix(int64(1700000000+77*k.TS), 123000000).UTC()
+	}
+	return time.Time{}
+}
 
 func (in *Instance) fail(mon, sub, format string, a ...interface{}) {
 	in.viol = append(in.viol, violation{Mon: mon, Sub: sub, What: fmt.Sprintf(format, a...), Step: in.step})
@@ -234,14 +268,14 @@ func (in *Instance) ReassemblyComplete(msgs []*auparse.AuditMessage) {
 		in.fail("M02", "delivered-after-higher", "sequence %d (ord %d) delivered after a higher sequence although its first record was pushed before that delivery", s, in.ord(s))
 	}
 	for _, p := range in.pending {
-		if p != ev && in.ord(p.seq) < in.ord(s) {
+		if p != ev && before(p.seq, s) {
 			p.overtaken = true
 		}
 	}
 	// Close must deliver ascending
 	if in.callIsClose && len(in.callDeliv) > 0 {
 		last := in.callDeliv[len(in.callDeliv)-1]
-		if in.ord(s) < in.ord(last) {
+		if before(s, last) {
 			in.fail("M19", "close-not-ascending", "Close delivered %d after %d", s, last)
 		}
 	}
@@ -263,7 +297,7 @@ func (in *Instance) ReassemblyComplete(msgs []*auparse.AuditMessage) {
 		// outer call is walking)
 		var o *shadowEvent
 		for _, p := range in.pending {
-			if !p.complete && (o == nil || in.ord(p.seq) < in.ord(o.seq)) {
+			if !p.complete && (o == nil || before(p.seq, o.seq)) {
 				o = p
 			}
 		}
@@ -351,7 +385,7 @@ func (in *Instance) endCall(op Op) {
 func (in *Instance) oldest() *shadowEvent {
 	var o *shadowEvent
 	for _, p := range in.pending {
-		if o == nil || in.ord(p.seq) < in.ord(o.seq) {
+		if o == nil || before(p.seq, o.seq) {
 			o = p
 		}
 	}
@@ -401,14 +435,25 @@ func (in *Instance) Apply(op Op) {
 		if k.Raw {
 			in.nextTag++
 			rec.tag = fmt.Sprintf("tag=<%d>", in.nextTag)
-			raw := fmt.Sprintf("audit(%d.123:%d): %s a=b", 1700000000+77*k.TS, op.Seq, rec.tag)
-			if err := in.r.Push(auparse.AuditMessageType(k.Type), []byte(raw)); err != nil {
+			ts := in.stamp(k)
+			if k.TS == 0 {
+				ts = time.Unix(1700000000, 123000000)
+			}
+			raw := fmt.Sprintf("audit(%d.%03d:%d): %s a=b", ts.Unix(), ts.Nanosecond()/1e6, op.Seq, rec.tag)
+			// the caller's buffer is REUSED for every Push and overwritten as soon as Push has
+			// returned (what a receive loop with one read buffer does): Push must have copied it
+			in.rawBuf = append(in.rawBuf[:0], raw...)
+			err := in.r.Push(auparse.AuditMessageType(k.Type), in.rawBuf)
+			for i := range in.rawBuf {
+				in.rawBuf[i] = 'Z'
+			}
+			if err != nil {
 				in.fail("M01", "push-error", "Push(%d, %q) returned %v", k.Type, raw, err)
 			}
 		} else {
 			rec.ptr = &auparse.AuditMessage{RecordType: auparse.AuditMessageType(k.Type), Sequence: op.Seq}
 			if k.TS != 0 {
-				rec.ptr.Timestamp = time.Unix(int64(1700000000+77*k.TS), 123000000).UTC()
+				rec.ptr.Timestamp = in.stamp(k)
 			}
 			in.r.PushMessage(rec.ptr)
 		}
@@ -555,9 +600,14 @@ func (in *Instance) Key() [20]byte {
 				w.U64(v.FieldByName("Sequence").Uint())
 				if ts := v.FieldByName("Timestamp"); ts.IsValid() && ts.CanAddr() {
 					tm := *(*time.Time)(unsafe.Pointer(ts.UnsafeAddr()))
-					if tm.IsZero() {
+					switch d := in.clock.T.Sub(tm); {
+					case tm.IsZero():
 						w.U64(0)
-					} else {
+					case d >= -16*tick && d <= 16*tick:
+						// stamped near the virtual present: its age in ticks is what code could react to
+						w.U64(1)
+						w.U64(uint64(int64(d/tick) + 16))
+					default:
 						w.U64(uint64(tm.Unix()))
 					}
 				}
